@@ -387,7 +387,7 @@ def record(front, routes, rng, ncalls=8, nev=40):
                 i = rng.choice(open_cmds)
                 k = rng.choice(kinds)
                 b = k in regkit.STATUS and rng.random() < 0.7
-                garbage = bytes(rng.randrange(256) for _ in range(rng.randrange(0, 12)))
+                garbage = regkit.GARBAGE if rng.random() < 0.6 else bytes(rng.randrange(256) for _ in range(rng.randrange(0, 12)))
                 sc.reply(i, k, b, d, garbage=garbage)
                 answered.add(i)
                 ev.append({'a': 'FwdReply', 'i': i + 1, 'k': k, 'b': b, 'd': d})
